@@ -23,10 +23,15 @@ NoPanic(e) == ~e.P.panic /\ ~e.V.panic /\ ~e.Q.panic /\ ~e.L.panic
 ConsOf(j) == [i \in 1..Len(j) |-> [k |-> j[i].k, n |-> j[i].n]]
 \* the configured value arrives as text; the harness logs it as decimal digits
 ToInt(sx) == CHOOSE n \in 0..64 : ToString(n) = sx
+\* C09: missing configuration values; C18: struct validation (a member constraint decides)
+MissingOK(e) == IF MissingOutcome(e.required) = "err" THEN (~e.ok /\ ~e.panic) ELSE (e.ok /\ e.zero)
 TraceInit == l = 1 /\ ok = [twin |-> TRUE, lit |-> TRUE, prop |-> TRUE, expr |-> TRUE, valid |-> TRUE, nopanic |-> TRUE]
 MStep == /\ l <= Len(Trace) /\ l' = l + 1
          /\ ok' = CASE E.kind = "twin" -> [twin |-> TwinOK(E), lit |-> LiteralOK(E), prop |-> PropOK(E), expr |-> TRUE, valid |-> TRUE, nopanic |-> NoPanic(E)]
                     [] E.kind = "expr" -> [twin |-> TRUE, lit |-> TRUE, prop |-> TRUE, expr |-> (E.got = E.want), valid |-> TRUE, nopanic |-> ~E.panic]
+                    [] E.kind = "missing" -> [twin |-> TRUE, lit |-> TRUE, prop |-> TRUE, expr |-> TRUE, nopanic |-> ~E.panic, valid |-> MissingOK(E)]
+                    [] E.kind = "vstruct" -> [twin |-> TRUE, lit |-> TRUE, prop |-> TRUE, expr |-> TRUE, nopanic |-> ~E.panic,
+                                              valid |-> (E.ok <=> ~ValidationFails(ToInt(E.x), ConsOf(E.cons)))]
                     [] E.kind = "validate" -> [twin |-> TRUE, lit |-> TRUE, prop |-> TRUE, expr |-> TRUE, nopanic |-> ~E.panic,
                                                valid |-> (E.ok <=> ~ValidationFails(ToInt(E.x), ConsOf(E.cons))) /\ (E.ok => E.bound = E.x)]
 MonitorSpec == TraceInit /\ [][MStep]_<<l, ok>>
@@ -36,6 +41,7 @@ C17_PropIsValue == ok.prop
 C18_ExprResult == ok.expr
 C18_ValidateIff == ok.valid
 C09_NoPanic == ok.nopanic
+C09_MissingConfig == ok.valid
 Accepted == IF TLCGet("stats").diameter = Len(Trace) + 1 THEN TRUE
             ELSE Print(<<"REJECTED_AFTER_LINE", TLCGet("stats").diameter - 1, "OF", Len(Trace)>>, FALSE)
 =============================================================================
